@@ -3,7 +3,9 @@
    -> the tokens print_top produces: atoms by name, operators as op<id>, ( and )
    "F <expr>"   -> the flattened tree (ExpPP.flat) in a canonical spelling
    "R <tokens>" -> the tree ExpParse.parse reads from a token list (a:<name> op<id> un<id> ( )),
-                   same spelling, or NONE *)
+                   same spelling, or NONE
+   "S <hex> <hex>,<hex>,..." -> OK when ExpStr.explained accepts the literal bodies (second field, as printed
+                   between the quotes) as a way exppp may print the string value (first field), else NO *)
 open Conv
 open ExpPP
 
@@ -47,6 +49,10 @@ let tok_of_string (w : string) : tok =
   else if n > 2 && String.sub w 0 2 = "un" then TUn (n_of_int (int_of_string (String.sub w 2 (n - 2))))
   else failwith ("bad token " ^ w)
 
+let str_of_hex (h : string) : ExpStr.str =
+  let n = String.length h / 2 in
+  Stdlib.List.init n (fun i -> n_of_int (int_of_string ("0x" ^ String.sub h (2 * i) 2)))
+
 let () =
   try
     while true do
@@ -60,6 +66,12 @@ let () =
           match ExpParse.parse (Stdlib.List.map tok_of_string ws) with
           | Some t -> print_string (show_ct t ^ "\n")
           | None -> print_string "NONE\n"
+        end else if String.length line > 2 && line.[0] = 'S' && line.[1] = ' ' then begin
+          match String.split_on_char ' ' (String.sub line 2 (String.length line - 2)) with
+          | [v; lits] ->
+            let ls = Stdlib.List.map (fun h -> str_of_hex (if h = "-" then "" else h)) (String.split_on_char ',' lits) in
+            print_string (if ExpStr.explained (str_of_hex (if v = "-" then "" else v)) ls then "OK\n" else "NO\n")
+          | _ -> print_string "NO\n"
         end else
         let wctx = String.length line > 2 && line.[0] = 'W' && line.[1] = ' ' in
         let line = if wctx then String.sub line 2 (String.length line - 2) else line in
